@@ -1,6 +1,10 @@
 import PyYetiVerif.Props.C06
 import PyYetiVerif.Props.C06b
 import PyYetiVerif.Props.C06c
+import PyYetiVerif.Props.C06d
+import PyYetiVerif.Props.C06e
+import PyYetiVerif.Props.C06f
+import PyYetiVerif.Props.C06g
 #print axioms PyYetiVerif.C06.cgmass_recovers
 #print axioms PyYetiVerif.C06.cgmass_recovers_general
 #print axioms PyYetiVerif.C06.rbmove_comp
@@ -33,3 +37,38 @@ import PyYetiVerif.Props.C06c
 #print axioms PyYetiVerif.C06.rbmult_eq_mul
 #print axioms PyYetiVerif.C06.cbtf_static_limit
 #print axioms PyYetiVerif.C06.cbtfStaticFrc_eq
+#print axioms PyYetiVerif.C06.net_ifltm_is_interface_resultant
+#print axioms PyYetiVerif.C06.net_ifltm_units
+#print axioms PyYetiVerif.C06.rbe3_normal_reproduces
+#print axioms PyYetiVerif.C06.net_ifatm_is_rb_acceleration_of_interface
+#print axioms PyYetiVerif.C06.resultant_force_ref_indep
+#print axioms PyYetiVerif.C06.cgatm_translation_rows_are_cg_acceleration
+#print axioms PyYetiVerif.C06.cgatm_rotation_rows_are_moment_about_offset
+#print axioms PyYetiVerif.C06.cgatm_rotation_rows_reference_counterexample
+#print axioms PyYetiVerif.C06.cglf_is_weight_normalised
+#print axioms PyYetiVerif.C06.cglf_moment_rows_match_shear
+#print axioms PyYetiVerif.C06.tsc2lv_blocks
+#print axioms PyYetiVerif.C06.mk_net_drms_fields
+#print axioms PyYetiVerif.C06.eigh_spec_charpoly
+#print axioms PyYetiVerif.C06.principal_inertias_invariant
+#print axioms PyYetiVerif.C06.principal_inertias_ref_indep
+#print axioms PyYetiVerif.C06.rotated_mass_blocks
+#print axioms PyYetiVerif.C06.principal_gyr_eq
+#print axioms PyYetiVerif.C06.eighResid_spec
+#print axioms PyYetiVerif.C06.find_xyz_triples_segs
+#print axioms PyYetiVerif.C06.rbScale2_grids
+#print axioms PyYetiVerif.C06.rbmultchk_scale_and_coords
+#print axioms PyYetiVerif.C06.rbmultchk_flags_nonrigid
+#print axioms PyYetiVerif.C06.role_after_reorder
+#print axioms PyYetiVerif.C06.convert_reorder_commute
+#print axioms PyYetiVerif.C06.cbcheck_errors
+#print axioms PyYetiVerif.C06.cbcheck_returns_def
+#print axioms PyYetiVerif.C06.cbcheck_option_independence
+#print axioms PyYetiVerif.C06.cbcheck_no_modal_dof
+#print axioms PyYetiVerif.C06.convert_qq_diag_invariant
+#print axioms PyYetiVerif.C06.cbcheck_frq_conv_invariant
+#print axioms PyYetiVerif.C06.flippv_order_indep
+#print axioms PyYetiVerif.C06.reorder_drm_response
+#print axioms PyYetiVerif.C06.convert_drm_response
+#print axioms PyYetiVerif.C06.convert_drm_roundtrip
+#print axioms PyYetiVerif.C06.conv_factors_inverse
